@@ -270,6 +270,8 @@ func ext۰reflect۰Value۰Uint(fr *frame, args []value) value {
 		return uint64(v)
 	case uintptr:
 		return uint64(v)
+	case sym:
+		return symConv(types.Uint64, v)
 	}
 	panic("reflect.Value.Uint")
 }
@@ -441,6 +443,8 @@ func ext۰reflect۰Value۰Int(fr *frame, args []value) value {
 		return int64(x)
 	case int64:
 		return x
+	case sym:
+		return symConv(types.Int64, x)
 	default:
 		panic(fmt.Sprintf("reflect.(Value).Int(%T)", x))
 	}
